@@ -151,7 +151,39 @@ async def gateway_case(ctx, version: str, line: str) -> None:
     await stepper.close()
 
 
+def check_validate_api(ctx, schemas, version: str, line: str) -> None:
+    """The decoder's other entry point: Schema.validate(line) reports errors without building a message.  It must agree
+    with load(): no errors exactly for the lines load accepts, and only ever a ValidationError / an error report."""
+    schema = schemas[version]
+    validate = getattr(schema, "validate", None)
+    if validate is None:
+        return
+    case = {"kind": "validate-api", "version": version, "line": line}
+    try:
+        schema.load(line)
+        accepted = True
+    except Exception:  # noqa: BLE001
+        accepted = False
+    ctx.clause("validate-agrees-with-load")
+    try:
+        errors = validate(line)
+    except Exception as exc:  # noqa: BLE001
+        if type(exc).__name__ != "ValidationError":
+            ctx.violation("foreign-exception-" + type(exc).__name__, f"MessageSchema.validate({line!r:.60}) raised "
+                                                                     f"{type(exc).__name__}", case)
+        elif accepted:
+            ctx.violation("wellformed-line-rejected", f"validate() rejects {line!r:.60} which load() accepts", case)
+        return
+    if bool(errors) == accepted:
+        ctx.violation("illformed-line-accepted" if not accepted else "wellformed-line-rejected",
+                      f"MessageSchema.validate({line!r:.60}) reports {errors!r:.80} but load() "
+                      f"{'accepts' if accepted else 'rejects'} the line", case)
+
+
 def run_case(ctx, case: dict) -> None:
+    if case["kind"] == "validate-api":
+        check_validate_api(ctx, {case["version"]: schema_for(case["version"])}, case["version"], case["line"])
+        return
     if case["kind"] == "independent":
         for via_context in (False, True):  # both ways of configuring the decoder (the run used one per shard)
             check_independent_decodes(ctx, {case["version"]: schema_for(case["version"], via_context=via_context)},
@@ -228,6 +260,10 @@ def run(ctx) -> None:
                     check_schema(ctx, schemas, version, line)
                     count += 1
         ctx.exhaustive["field-alphabet-lines"] = count
+        for version in VERSIONS:
+            for i, line in enumerate(lines):
+                if i % 7 == 0 and ctx.mine():
+                    check_validate_api(ctx, schemas, version, line)
         for version in VERSIONS:
             for i, line in enumerate(lines):
                 if i % 40 == 0 and ctx.mine():
